@@ -105,7 +105,7 @@ def _template_iter_nexts(ins):
 
 def r2_conflict_table(ctx):
     R = ctx.rule("C02.R2", "insert: for each template segment kind the existing edge of the same kind is descended into and the two other kinds panic (3x3); a variable edge with a different "
-                 "name panics; insert_var panics on a repeated name (one set per registration); a wildcard followed by more segments panics", floor=26)
+                 "name panics; insert_var panics on a repeated name (one set per registration); a wildcard followed by more segments panics", floor=27)
     ins = _ins(ctx, R)
     nexts = _template_iter_nexts(ins)
     if not nexts:
@@ -303,7 +303,7 @@ def r2_conflict_table(ctx):
 # --------------------------------------------------------------------------- R3
 def r3_shape(ctx):
     R = ctx.rule("C02.R3", "HttpRouterNode = { methods: map String -> Vec<ApiEndpoint>, edges: Option<HttpRouterEdges> } with HttpRouterEdges = Literals(map String -> Box<Node>) | "
-                 "VariableSingle(String, Box<Node>) | VariableRest(String, Box<Node>): one edge kind and one variable name per position by construction; edges are built only in insert", floor=7)
+                 "VariableSingle(String, Box<Node>) | VariableRest(String, Box<Node>): one edge kind and one variable name per position by construction; edges are built only in insert", floor=11)
     node = ctx.ds.adts.get("router::HttpRouterNode")
     edges = ctx.ds.adts.get("router::HttpRouterEdges")
     if not node or not edges:
@@ -624,7 +624,7 @@ def _tags_spec(visible, policy, tags, allow_other, known):
 
 def r6_tag_policy(ctx):
     R = ctx.rule("C02.R6", "validate_tags(e) = Ok for invisible endpoints; otherwise Err iff (AtLeastOne and 0 tags) or (ExactlyOne and tag count != 1) or (!allow_other_tags and some tag is not "
-                 "configured) - interpreted over visible x policy x tag lists of length 0..3 x allow_other_tags x configured/unknown per tag", floor=180)
+                 "configured) - interpreted over visible x policy x tag lists of length 0..3 x allow_other_tags x configured/unknown per tag", floor=182)
     vt = ctx.need_fn(ctx.ds, R, r"^api_description::ApiDescription::<Context>::validate_tags$")
     adts = ctx.ds.adts
     need = ["api_description::ApiDescription", "api_description::TagConfig", "api_description::EndpointTagPolicy", "api_description::ApiEndpoint"]
